@@ -13,6 +13,7 @@
 import KiraModel.Exec.SuiteStatic
 import KiraModel.Exec.SuiteModulator
 import KiraModel.Exec.SuiteFxA
+import KiraModel.Exec.SuiteSpatial
 import KiraModel.Model.System
 
 namespace K.Exec.SysCore
@@ -43,6 +44,11 @@ structure SCState where
   nextMod : Nat := 0
   nextSound : Nat := 0
   nextFx : Nat := 0
+  /-- live listener handles, the ids of dropped listeners, and which track ids are spatial -/
+  listeners : List Nat := []
+  ghosts : List Nat := []
+  spatialTracks : List Nat := []
+  nextListener : Nat := 0
   /-- what each sound's handle last read from `Shared` (kept after the sound is unloaded) -/
   snap : List (Nat × (PlaybackState × Float)) := []
 
@@ -55,22 +61,31 @@ def removeAt (tbl : List Nat) (i : Nat) : List Nat :=
 
 /-! ### values, start times, tweens -/
 
-/-- `f<bits>` | `m<l|t><idx>_<in0>_<in1>_<out0>_<out1>` (modulator taken from the LFO / tweener handle table;
-    an empty table gives the fixed value `out0`) -/
-def parseV (c : Codec Float) (st : SCState) (s : String) : Option (Value Float Float) :=
+/-- `f<v>` | `m<l|t><idx>_<in0>_<in1>_<out0>_<out1>` (modulator taken from the LFO / tweener handle table;
+    an empty table gives the fixed value `out0`) | `d<in0>_<in1>_<out0>_<out1>` (`Value::FromListenerDistance`);
+    `parse` reads the fixed value / the mapping outputs -/
+def parseVG {τ : Type} (parse : String → Option τ) (st : SCState) (s : String) : Option (Value Float τ) :=
   match s.toList with
-  | 'f' :: rest => (c.parse (String.ofList rest)).map .fixed
+  | 'f' :: rest => (parse (String.ofList rest)).map .fixed
+  | 'd' :: rest =>
+    match (String.ofList rest).splitOn "_" with
+    | [i0, i1, o0, o1] => do
+        let i0 ← f64? i0; let i1 ← f64? i1; let o0 ← parse o0; let o1 ← parse o1
+        pure (.fromListenerDistance ⟨i0, i1, o0, o1, .linear⟩)
+    | _ => none
   | 'm' :: k :: rest =>
     match (String.ofList rest).splitOn "_" with
     | [idx, i0, i1, o0, o1] => do
         let idx ← nat? idx; let i0 ← f64? i0; let i1 ← f64? i1
-        let o0 ← c.parse o0; let o1 ← c.parse o1
+        let o0 ← parse o0; let o1 ← parse o1
         let tbl := if k == 'l' then st.lfos else st.tweeners
         match pick tbl idx with
         | some id => pure (.fromModulator id ⟨i0, i1, o0, o1, .linear⟩)
         | none => pure (.fixed o0)
     | _ => none
   | _ => none
+
+def parseV (c : Codec Float) (st : SCState) (s : String) : Option (Value Float Float) := parseVG c.parse st s
 
 /-- a clock speed value: `<spt|tps|tpm>=<f64>` | `m<l|t><idx>_<in0>_<in1>_<speed>_<speed>` -/
 def parseVCs (st : SCState) (s : String) : Option (Value Float (ClockSpeed Float)) :=
@@ -281,6 +296,42 @@ def scStep (st : SCState) (tok : List String) : Option (SCState × String) :=
         | some p => ((sy'.r.mixer.findTrack p).map Trk.hNumSubTracks).getD 0
       pure ({ st with sys := some sy', nextFx := nfx, fxs := st.fxs ++ fx.map (·.id), fxKinds := st.fxKinds ++ kindsOf fx,
                       nextTrack := id + 1, tracks := st.tracks ++ [id] }, s!"ok {cnt}")
+  | some sy, ["listener", p, q] => do
+      let p ← parseVG parseVec3 st p; let q ← parseVG parseQuat st q
+      let id := st.nextListener
+      pure ({ st with sys := some (sy.addListener id p q), nextListener := id + 1, listeners := st.listeners ++ [id] }, "ok")
+  | some sy, ["lis.pos", i, p, tw] => do
+      let i ← nat? i; let p ← parseVG parseVec3 st p; let tw ← parseTweenR st tw
+      match pick st.listeners i with
+      | none => pure (st, "skip")
+      | some id => pure (setSys st (sy.listenerCommand id (fun l => { l with cmdPos := some (p, tw) })), "ok")
+  | some sy, ["lis.ori", i, q, tw] => do
+      let i ← nat? i; let q ← parseVG parseQuat st q; let tw ← parseTweenR st tw
+      match pick st.listeners i with
+      | none => pure (st, "skip")
+      | some id => pure (setSys st (sy.listenerCommand id (fun l => { l with cmdOri := some (q, tw) })), "ok")
+  | some sy, ["strack", parent, lref, pos, mn, mx, att, str, vol, persist, sends, fx] => do
+      let parent ← int? parent
+      let k ← nat? (lref.drop 1).toString
+      let lid := if lref.startsWith "l" then (pick st.listeners k).orElse (fun _ => pick st.ghosts k)
+                 else (pick st.ghosts k).orElse (fun _ => pick st.listeners k)
+      match lid with
+      | none => pure (st, "skip")
+      | some lid =>
+        let pos ← parseVG parseVec3 st pos
+        let mn ← f32? mn; let mx ← f32? mx; let att ← parseAtten att
+        let str ← parseV codec32 st str; let vol ← parseV codec32 st vol
+        let sends ← parseSends st sends
+        let (fx, nfx) ← parseFxList st fx st.nextFx
+        let id := st.nextTrack
+        let par := if parent < 0 then none else pick st.tracks parent.toNat
+        let sy' := sy.addSpatialSubTrack par id (SysSpatial.new lid pos mn mx att str) vol fx sends (persist == "1")
+        let cnt := match par with
+          | none => sy'.r.mixer.hNumSubTracks
+          | some p => ((sy'.r.mixer.findTrack p).map Trk.hNumSubTracks).getD 0
+        pure ({ st with sys := some sy', nextFx := nfx, fxs := st.fxs ++ fx.map (·.id), fxKinds := st.fxKinds ++ kindsOf fx,
+                        nextTrack := id + 1, tracks := st.tracks ++ [id], spatialTracks := id :: st.spatialTracks },
+              s!"ok {cnt}")
   | some sy, ["clock", cs] => do
       let cs ← parseVCs st cs
       let id := st.nextClock
@@ -400,7 +451,7 @@ def scStep (st : SCState) (tok : List String) : Option (SCState × String) :=
       match pick st.tracks i with
       | none => pure (st, "skip")
       | some id =>
-        let onT (f : Trk Float (SysSnd Float) Fx Unit → Trk Float (SysSnd Float) Fx Unit) : Option (SCState × String) :=
+        let onT (f : Trk Float (SysSnd Float) Fx (SysSpatial Float) → Trk Float (SysSnd Float) Fx (SysSpatial Float)) : Option (SCState × String) :=
           some (setSys st (sy.withMixer (Mixer.mapTrack id f)), "ok")
         match what, args with
         | "vol", [v, tw] => do let v ← parseV codec32 st v; let tw ← parseTweenR st tw; onT (Trk.hSetVolume v tw)
@@ -408,6 +459,12 @@ def scStep (st : SCState) (tok : List String) : Option (SCState × String) :=
         | "resume", [tw] => do let tw ← parseTweenR st tw; onT (Trk.hResumeAt .immediate tw)
         | "resume_at", [s, tw] => do
             let s ← parseStartR st s; let tw ← parseTweenR st tw; onT (Trk.hResumeAt s tw)
+        | "pos", [p, tw] => do
+            let p ← parseVG parseVec3 st p; let tw ← parseTweenR st tw
+            if st.spatialTracks.contains id then pure (setSys st (sy.setSpatialPosition id p tw), "ok") else pure (st, "nop")
+        | "str", [v, tw] => do
+            let v ← parseV codec32 st v; let tw ← parseTweenR st tw
+            if st.spatialTracks.contains id then pure (setSys st (sy.setSpatialStrength id v tw), "ok") else pure (st, "nop")
         | "send", [k, v, tw] => do
             let k ← nat? k; let v ← parseV codec32 st v; let tw ← parseTweenR st tw
             match pick st.sends k with
@@ -496,6 +553,11 @@ def scStep (st : SCState) (tok : List String) : Option (SCState × String) :=
         | none => pure (st, "skip")
         | some id => pure ({ st with sys := some (sy.modCommand id (fun m => { m with removed := true })),
                                      tweeners := removeAt st.tweeners i }, "ok")
+      | "listener" =>
+        match pick st.listeners i with
+        | none => pure (st, "skip")
+        | some id => pure ({ st with sys := some (sy.listenerCommand id (fun l => { l with removed := true })),
+                                     listeners := removeAt st.listeners i, ghosts := st.ghosts ++ [id] }, "ok")
       | "sound" => if st.sounds.isEmpty then pure (st, "skip") else pure ({ st with sounds := removeAt st.sounds i }, "ok")
       | "fx" => if st.fxs.isEmpty then pure (st, "skip") else pure ({ st with fxs := removeAt st.fxs i }, "ok")
       | _ => none
